@@ -177,7 +177,10 @@ class C03(Prop):
     id = "C03"
     rule = ("cases: authentic files (produced by the implementation) mutated by every single-bit flip, truncation at "
             "every offset, appended bytes/records, and every sequence of <=4 records drawn from two files, at chunk "
-            "size 2/3 through the chunk hooks, plus key/password files at the production chunk size; a case is "
+            "size 2/3 through the chunk hooks, plus key/password files at the production chunk size; header sweep "
+            "(implementation + direct oracle, not sent to the model): on small key-mode and password-mode files EVERY "
+            "single-bit flip of every header byte (1056 / 288 bits), every proper prefix, extensions, sampled "
+            "(thorough: all) bit flips of the chunk section; a case is "
             "non-trivial when it is not the unmodified authentic file; distinct = distinct driver command lines")
     assumptions = ["no-forgery-in-run premise (INT-CTXT of ChaCha20-Poly1305 idealised, DESIGN section 4)",
                    "AEAD correctness laws aead_ok are proved for the Gallina RFC 8439 instance"]
@@ -326,6 +329,106 @@ class C03(Prop):
         c2 = Ctx(ctx.pid, "thorough", ctx.seed + 1)
         c2.bin = ctx.bin
         return self.chunk_stream(c2, True) + self.file_stream(c2, True)
+
+    # ---- exhaustive header sweep on small production-format files (direct oracle; too many key-mode cases for the
+    # Gallina X25519, so these are not sent to the model: the sampled flips of file_stream are)
+    def header_sweep(self, ctx, full):
+        """small authentic key-mode and password-mode files through the public API: EVERY single-bit flip of EVERY header
+        byte (key mode: magic 4 + ephemeral key 32 + encrypted static key 48 + encrypted payload key 48 = 1056 bits;
+        password mode: magic 4 + salt 32 = 288 bits), every proper prefix, and sampled (thorough: all) single-bit flips
+        of the chunk section; several files so that plaintext length 0 and both key roles vary"""
+        rng = ctx.rng
+        cases = []
+        # key mode
+        nk = 3 if full else 2
+        kp = keypairs(ctx, 2 + 2 * nk)
+        (s_, spk), (r_, rpk) = kp[0], kp[1]
+        plan = []
+        for i in range(nk):
+            (e, epk) = kp[2 + i]
+            # the second file is sent by another key pair to the same recipient; the first plaintext is empty
+            (ss, sspk) = (s_, spk) if i != 1 else kp[2 + nk]
+            P = b"" if i == 0 else ctx.rbytes(rng.randrange(1, 24))
+            plan.append((P, Case("key_enc", s=ss, spk=sspk, r=rpk, e=e, epk=epk, pk=ctx.rbytes(32), data=P)))
+        vlib.run_impl(ctx.bin, [c for _, c in plan])
+        for P, enc in plan:
+            if enc.result["code"] != 0:
+                cases.append(Case("key_enc", oracle=ok_only("honest key encryption succeeds"), tags=["sweep-enc"], **dict(enc.a)))
+                continue
+            F = enc.result["out"]
+            mk = lambda data, kind, tags, P=P: Case("key_dec", r=r_, rpk=rpk, data=data, oracle=self.expect(P, kind), tags=tags)
+            cases.append(mk(F, "must_accept", ["authentic", "trivial"]))
+            ctr = set(range(132, 140))
+            for bit in range(132 * 8):
+                cases.append(mk(flip(F, bit), "must_reject", ["hdr-sweep-key"]))
+            body = list(range(132 * 8, len(F) * 8))
+            for bit in (body if full else rng.sample(body, min(len(body), 96))):
+                cases.append(mk(flip(F, bit), "must_accept" if bit // 8 in ctr else "must_reject", ["body-flip-key"]))
+            for n in range(len(F)):
+                cases.append(mk(F[:n], "must_reject", ["prefix-sweep-key"]))
+            for extra in (b"\x00", F[132:], ctx.rbytes(rng.randrange(1, 40))):
+                cases.append(mk(F + extra, "must_reject", ["extend-sweep-key"]))
+        # password mode (every case that keeps the 36 header bytes costs one scrypt: one file, short plaintext)
+        for i in range(2 if full else 1):
+            pw = rng.choice(PASSWORDS[1:])
+            P = ctx.rbytes(rng.randrange(0, 6))
+            enc = Case("pass_enc", pw=pw, salt=ctx.rbytes(32), data=P)
+            vlib.run_impl(ctx.bin, [enc])
+            if enc.result["code"] != 0:
+                cases.append(Case("pass_enc", oracle=ok_only("honest password encryption succeeds"), tags=["sweep-enc"], **dict(enc.a)))
+                continue
+            F = enc.result["out"]
+            mkp = lambda data, kind, tags, P=P, pw=pw: Case("pass_dec", pw=pw, data=data, oracle=self.expect(P, kind), tags=tags)
+            cases.append(mkp(F, "must_accept", ["authentic", "trivial"]))
+            ctr = set(range(36, 44))
+            for bit in range(36 * 8):
+                cases.append(mkp(flip(F, bit), "must_reject", ["hdr-sweep-pass"]))
+            body = list(range(36 * 8, len(F) * 8))
+            for bit in (body if full else rng.sample(body, min(len(body), 48))):
+                cases.append(mkp(flip(F, bit), "must_accept" if bit // 8 in ctr else "must_reject", ["body-flip-pass"]))
+            for n in range(len(F)):
+                cases.append(mkp(F[:n], "must_reject", ["prefix-sweep-pass"]))
+            cases.append(mkp(F + b"\x00", "must_reject", ["extend-sweep-pass"]))
+            cases.append(mkp(F + F[36:], "must_reject", ["extend-sweep-pass"]))
+        return cases
+
+    def run_direct_par(self, ctx, cases, max_report=8):
+        """implementation + direct oracle only, the cases spread over VERIF_JOBS driver processes"""
+        if not cases:
+            return
+        from concurrent.futures import ThreadPoolExecutor
+        n = max(1, min(vlib.NPROC, len(cases) // 16))
+        shards = [cases[i::n] for i in range(n)]
+        with ThreadPoolExecutor(max_workers=n) as ex:
+            list(ex.map(lambda sh_: vlib.run_impl(ctx.bin, sh_), shards))
+        ctx.evaluations += len(cases)
+        dist = collections.Counter(ctx.distribution)
+        seen = set()
+        reported = 0
+        for c in cases:
+            dist["op:" + c.op] += 1
+            for t in c.tags:
+                dist["tag:" + t] += 1
+            line = c.rust_line().split(" ", 1)[1]
+            if line not in seen:
+                seen.add(line)
+                if "trivial" not in c.tags:
+                    ctx.distinct_nontrivial += 1
+            if c.expect_fn is not None:
+                ctx.oracle_checks += 1
+                msg = c.expect_fn(c.result)
+                if msg:
+                    dist["sweep-violations"] += 1
+                    if reported < max_report:
+                        reported += 1
+                        d = c.full()
+                        d["tags"] = list(c.tags)
+                        ctx.violations.append({"input": d, "expected": msg[0], "observed": msg[1], "finding_key": None})
+        ctx.distribution = dict(dist)
+
+    def explore(self, ctx):
+        super().explore(ctx)
+        self.run_direct_par(ctx, self.header_sweep(ctx, ctx.thorough()))
 
 
 REGISTRY = {}
@@ -615,7 +718,11 @@ class C09(Prop):
     id = "C09"
     rule = ("cases: every length 0..200 (thorough 0..400) of all-zero / all-0xff / random / authentic-prefix content at "
             "each binary surface (chunk loop, key file, password file, Noise handshake message, AEAD ciphertext), hostile "
-            "length fields; outcome must be a value (Ok/Err), never panic/abort; non-trivial = all but the empty input")
+            "length fields; outcome must be a value (Ok/Err), never panic/abort; memory while rejecting: peak heap of single "
+            "decrypt calls (counting allocator, driver op c09mem) on chunk-hook / key / password files whose length field at "
+            "the first or a later record announces cs+1 .. 2^28 (thorough 2^32-1), cut behind the header or not, must not "
+            "exceed the peak for legal length fields (+4 KiB) nor one chunk buffer (+ scrypt's 32 MiB); "
+            "non-trivial = all but the empty input")
     assumptions = ["termination of the real process is observed with a watchdog, not proved",
                    "the keyring surface is covered by C17; the argv surface by the parse correspondence appended here "
                    "(exhaustive argument vectors of <= 3 (thorough 4) tokens over a 35-token vocabulary + random vectors)"]
@@ -671,8 +778,104 @@ class C09(Prop):
         out.append(Case("noise_dec", r=r, rpk=rpk, prologue=b"egk\x10", msg=big[:65535], oracle=nopanic, tags=["max-len"]))
         return out
 
+    # ---- "memory use ... while rejecting [is] bounded by constants that no attacker-chosen header field can raise"
+    def mem_while_rejecting(self, ctx):
+        """peak heap of single decrypt calls (driver op `c09mem`: input from a slice, counting sink, counting allocator) on
+        files whose chunk-header LENGTH FIELD is hostile - at the first and at a later record, file cut right behind the
+        header or continued - compared with the peak of rejecting/decrypting the same file with every LEGAL field value
+        class, and with the constant the code documents (one chunk buffer; password mode: scrypt's 32 MiB work area)"""
+        rng = ctx.rng
+        SLACK = 4096
+        (s, spk), (r, rpk), (e, epk) = keypairs(ctx, 3)
+        jobs = []      # (surface label, prefix of the driver line, file bytes, offsets of the record headers, chunk size, absolute bound)
+        for cs in ([16, 64, 4096] if not ctx.thorough() else [1, 16, 64, 1000, 4096, 65536]):
+            key, aad = ctx.rbytes(32), rng.choice([b"", b"egk\x20"])
+            enc = Case("enc_chunks", key=key, aad=aad, cs=cs, data=ctx.rbytes(2 * cs + rng.randrange(1, cs + 1)))
+            vlib.run_impl(ctx.bin, [enc])
+            F = enc.result["out"]
+            jobs.append(("chunk loop cs=%d" % cs, "c09mem dec_chunks %s %s %d" % (vlib.hexs(key), vlib.hexs(aad), cs), F,
+                         [0, 32 + cs, 2 * (32 + cs)], cs, 2 * (cs + 16) + 65536))
+        kenc = [Case("key_enc", s=s, spk=spk, r=rpk, e=e, epk=epk, pk=ctx.rbytes(32), data=ctx.rbytes(rng.randrange(1, 300))),
+                Case("key_enc", s=s, spk=spk, r=rpk, e=e, epk=epk, pk=ctx.rbytes(32), data=ctx.rbytes(BIG + rng.randrange(1, 300))),
+                Case("pass_enc", pw=b"pw", salt=ctx.rbytes(32), data=ctx.rbytes(rng.randrange(1, 300)))]
+        vlib.run_impl(ctx.bin, kenc)
+        one_chunk = 2 * (BIG + 16) + 65536            # the fixed buffer, one AEAD output, small change
+        jobs.append(("key file", "c09mem key_dec %s %s" % (vlib.hexs(r), vlib.hexs(rpk)), kenc[0].result["out"], [132], BIG, one_chunk))
+        jobs.append(("key file, second record", "c09mem key_dec %s %s" % (vlib.hexs(r), vlib.hexs(rpk)), kenc[1].result["out"],
+                     [132, 132 + 32 + BIG], BIG, one_chunk))
+        jobs.append(("password file", "c09mem pass_dec %s" % vlib.hexs(b"pw"), kenc[2].result["out"], [36], BIG,
+                     128 * 32768 * 8 + one_chunk))
+        lines, meta = [], []
+
+        def put(label, pre, data, kind, note):
+            meta.append((label, pre, data, kind, note))
+            lines.append("%d %s %s" % (len(lines), pre, vlib.hexs(data)))
+
+        def with_len(F, off, v, cut):
+            x = bytearray(F)
+            x[off + 12:off + 16] = v.to_bytes(4, "big")
+            return bytes(x[:off + 16]) if cut else bytes(x)
+        for label, pre, F, offs, cs, bound in jobs:
+            pwmode = label.startswith("password")
+            put(label, pre, F, "ref", "authentic file")
+            for off in offs:
+                if off + 16 > len(F):
+                    continue
+                for v in sorted(set([0, 1, cs // 2, cs - 1, cs])):           # legal announcements: what rejecting may cost
+                    for cut in (False, True):
+                        if not pwmode or (v == cs and cut):
+                            put(label, pre, with_len(F, off, v, cut), "ref", "legal length field %d at offset %d%s" % (v, off, ", cut behind the header" if cut else ""))
+                hostile = [cs + 1, cs + 15, cs + 16, cs + 17, 2 * cs, 2 * cs + 16, 65537, 1 << 20, 1 << 24, (1 << 28) - 1, 1 << 28,
+                           rng.randrange(cs + 1, cs + (1 << 16)), rng.randrange(1 << 17, 1 << 24), rng.randrange(1 << 24, 1 << 28)]
+                if ctx.thorough():
+                    hostile += [1 << 30, (1 << 31) - 1, 1 << 31, (1 << 32) - 17, (1 << 32) - 1]
+                if pwmode:
+                    hostile = [65537, 1 << 26, (1 << 27) + 5, 1 << 28] + ([(1 << 32) - 1] if ctx.thorough() else [])
+                for v in sorted(set(h for h in hostile if h > cs)):
+                    for cut in ((False, True) if not pwmode else (True,)):
+                        put(label, pre, with_len(F, off, v, cut), "hostile", "length field %d (> chunk size %d) in the record header at offset %d%s"
+                            % (v, cs, off, ", file cut behind that header" if cut else ""))
+        res, _ = vlib.run_driver(ctx.bin, lines)
+        bounds = dict((j[0], j[5]) for j in jobs)
+        refpeak = {}
+        parsed = []
+        for i, (label, pre, data, kind, note) in enumerate(meta):
+            kv = dict(p.partition("=")[::2] for p in res.get(str(i), "x outcome=missing").split()[1:])
+            parsed.append(kv)
+            if kind == "ref" and kv.get("peak", "").isdigit():
+                refpeak[label] = max(refpeak.get(label, 0), int(kv["peak"]))
+        ctx.evaluations += len(meta)
+        for (label, pre, data, kind, note), kv in zip(meta, parsed):
+            ctx.oracle_checks += 1
+            ctx.distribution["c09mem:" + kind] = ctx.distribution.get("c09mem:" + kind, 0) + 1
+            o = kv.get("outcome", "missing")
+            bad = None
+            if not (o == "ok" or o.startswith("err:")):
+                bad = ("an error value or a normal result, never a panic/abort", o)
+            elif kind == "hostile":
+                ctx.distinct_nontrivial += 1
+                pk_ = int(kv.get("peak", "0"))
+                if o == "ok":
+                    bad = ("a length field above the chunk size is rejected", o)
+                elif pk_ > refpeak.get(label, 0) + SLACK or pk_ > bounds[label]:
+                    bad = ("%s: heap used while rejecting is bounded by a constant no header field can raise: at most what legal "
+                           "length fields cost (measured %d bytes) and %d bytes" % (note, refpeak.get(label, 0), bounds[label]),
+                           "%s with peak heap %d bytes" % (o, pk_))
+            elif int(kv.get("peak", "0")) > bounds[label]:
+                bad = ("%s (%s): one decrypt call needs at most one chunk buffer (+ scrypt's work area): %d bytes" % (label, note, bounds[label]),
+                       "%s with peak heap %s bytes" % (o, kv.get("peak")))
+            if bad:
+                if ctx.distribution.get("c09mem:violations", 0) < 6:
+                    ctx.violations.append({"input": {"op": "c09mem", "surface": label, "what": note, "line": pre, "data": data.hex() if len(data) < 4096 else
+                                                     data[:200].hex() + "..(%d bytes; header at the stated offset)" % len(data)},
+                                           "expected": bad[0], "observed": bad[1], "finding_key": None})
+                ctx.distribution["c09mem:violations"] = ctx.distribution.get("c09mem:violations", 0) + 1
+        if len(ctx.samples) < 8 and parsed:
+            ctx.samples.append({"op": "c09mem", "reference_peaks": refpeak, "example": meta[-1][4], "reply": parsed[-1]})
+
     def explore(self, ctx):
         super().explore(ctx)
+        self.mem_while_rejecting(ctx)
         # the argv half ("whatever argument vector ... never a panic"): the real parser (clidrv driver op `parse`)
         # against Model/CliParse.v on exhaustive short and random long argument vectors (tools/props_cli.py)
         import props_cli
@@ -685,6 +888,12 @@ class C09(Prop):
         if payload.get("input", {}).get("op") == "parse":
             import props_cli
             return props_cli.k_replay(ctx, payload)
+        if payload.get("input", {}).get("op") == "c09mem":
+            d = payload["input"]
+            if ".." in d["data"]:
+                return {"holds": None, "note": "input too long to store: re-run the check with the recorded seed", "what": d["what"]}
+            res, _ = vlib.run_driver(ctx.bin, ["1 %s %s" % (d["line"], d["data"] or "-")])
+            return {"holds": None, "implementation": res.get("1", "")[:400], "expected": payload.get("expected")}
         return super().replay(ctx, payload)
 
 
@@ -1160,6 +1369,228 @@ class C05(Prop):
             Fs = reference_key_file(ctx, e, epk, None, u, rpk, ctx.rbytes(32), P, ss_override=zeros)
             out.append(Case("key_dec", r=r, rpk=rpk, data=Fs, oracle=reject, tags=["low-order-sender"]))
         return out
+
+    # ---- CLI half: the NAME `kestrel decrypt` reports must belong to the key whose private key took part
+    def explore(self, ctx):
+        super().explore(ctx)
+        if os.path.exists(vlib.CLIDRV):
+            c05_cli_sender_lookup(self, ctx)
+        else:
+            ctx.broken.append({"kind": "correspondence", "what": "clidrv was not built: CLI half of C05 (sender name lookup) not checked"})
+
+    def replay(self, ctx, payload):
+        if payload.get("input", {}).get("op") == "kr_name_from_key" or payload.get("input", {}).get("kind") == "proc":
+            import props_cli
+            return props_cli.k_replay(ctx, payload)
+        return super().replay(ctx, payload)
+
+
+def c05_pk_text(raw32, ck=None):
+    """the CLI's text encoding of a public key: base64(key || first 4 bytes of SHA-256(key)); ck overrides the checksum"""
+    import base64, hashlib
+    return base64.b64encode(raw32 + (hashlib.sha256(raw32).digest()[:4] if ck is None else ck))
+
+
+def c05_checksum_twin(ctx, senders, budget):
+    """a genuine short-id collision: 32 bytes A (no private key needed: it only has to sit in a keyring) whose VALID
+    4-byte checksum equals that of one of the sender keys.  Birthday search over len(senders) x budget; returns
+    (index of the sender, A) or None"""
+    import hashlib
+    want = {}
+    for i, pk in enumerate(senders):
+        want.setdefault(hashlib.sha256(pk).digest()[:4], i)
+    base = int.from_bytes(ctx.rbytes(32), "big") >> 1
+    sha = hashlib.sha256
+    for j in range(budget):
+        a = (base + j).to_bytes(32, "big")
+        i = want.get(sha(a).digest()[:4])
+        if i is not None and a != senders[i]:
+            return i, a
+    return None
+
+
+def c05_lookalikes(ctx, M, full):
+    """32-byte keys DIFFERENT from M whose text encoding coincides with M's in part: [(label, encoded text)]"""
+    import hashlib
+    rng = ctx.rng
+    ck = hashlib.sha256(M).digest()[:4]
+    out = []
+
+    def add(label, raw, keep_ck=False):
+        raw = bytes(raw)
+        if raw == M:
+            raw = bytes([raw[0] ^ 1]) + raw[1:]
+        out.append((label, c05_pk_text(raw, ck if keep_ck else None)))
+    # same trailing 4-byte checksum ("key id"), everything else different (the keyring parser does not verify checksums)
+    add("same-checksum", ctx.rbytes(32), keep_ck=True)
+    add("same-checksum-zero-key", bytes(32), keep_ck=True)
+    ks = list(range(1, 32)) if full else sorted(set([1, 3, 4, 8, 16, 24, 30, 31] + rng.sample(range(1, 32), 3)))
+    for k in ks:
+        tail = bytearray(ctx.rbytes(32 - k))
+        tail[0] = tail[0] if tail[0] != M[k] else tail[0] ^ 0x10
+        add("same-first-%d-bytes" % k, M[:k] + bytes(tail))
+        head = bytearray(ctx.rbytes(32 - k))
+        head[-1] = head[-1] if head[-1] != M[31 - k] else head[-1] ^ 0x10
+        add("same-last-%d-bytes" % k, bytes(head) + M[32 - k:])
+        add("same-last-%d-bytes-and-checksum" % k, bytes(head) + M[32 - k:], keep_ck=True)
+    bits = list(range(255)) if full else sorted(set([0, 7, 8, 127, 128, 247, 248, 254] + rng.sample(range(255), 6)))
+    for b in bits:                               # bit 255 is left alone: X25519 ignores it, it is arguably the same key
+        add("one-bit-%d" % b, flip(M, b))
+        add("one-bit-%d-same-checksum" % b, flip(M, b), keep_ck=True)
+    add("reversed", M[::-1])
+    add("complement", bytes(x ^ 0xff for x in M))
+    add("rotated", M[1:] + M[:1])
+    # the same text in another letter case (base64 is case sensitive: other bytes)
+    t = c05_pk_text(M)
+    idx = [i for i in range(40) if t[i:i + 1].isalpha()]
+    for i in rng.sample(idx, min(len(idx), 3)):
+        out.append(("case-of-char-%d" % i, t[:i] + t[i:i + 1].swapcase() + t[i + 1:]))
+    out.append(("all-upper", t.upper() if t.upper() != t else t.lower()))
+    return [(l, e) for l, e in out if e != t]
+
+
+def c05_cli_sender_lookup(self, ctx):
+    """C05 at the command line: 'Success. File from: NAME' names a keyring entry; that entry's public key must be the key
+    whose private key took part in creating the file.  Keyrings hold SEVERAL keys, among them look-alikes of the real sender
+    key (c05_lookalikes, and a genuine checksum twin), placed BEFORE the exact entry or with the exact entry absent.
+    Part A: Keyring::get_name_from_key in-process against Model/Keyring.v (run_kr_name_from_key) + direct oracle.
+    Part B: real `kestrel decrypt` processes on files made by the look-alike's victim key pair."""
+    import props_cli as pc
+    rng = ctx.rng
+    full = ctx.thorough()
+    nsend = 16384 if not full else 65536
+    sks = [ctx.rbytes(32) for _ in range(nsend)]
+    pks = [vlib.unhex(r_["out"]) for r_ in pc.lib_ops(ctx.bin, ["xpub " + vlib.hexs(k) for k in sks])]
+    twin = c05_checksum_twin(ctx, pks, 1500000 if not full else 4000000)
+    ctx.distribution["c05cli:checksum-twin-found"] = 1 if twin else 0
+    mi = twin[0] if twin else 0
+    m, M = sks[mi], pks[mi]                                   # mallory: a perfectly valid key pair, the real sender
+    (b, B), (c, C), (d, D) = [(sks[i], pks[i]) for i in [j for j in range(4) if j != mi][:3]]
+    EM, EB, EC, ED = [c05_pk_text(x) for x in (M, B, C, D)]
+    enc_chk = pc.cli_ops(["pk_encode " + vlib.hexs(M)])[0]
+    if vlib.unhex(enc_chk.get("out", "-")) != EM:
+        ctx.violations.append({"input": {"op": "pk_encode", "pk": M.hex()}, "expected": "documented text encoding " + EM.decode(),
+                               "observed": str(enc_chk), "finding_key": None})
+        return
+    looks = c05_lookalikes(ctx, M, full)
+    if twin:
+        looks.insert(0, ("checksum-twin-valid", c05_pk_text(twin[1])))
+    blk = pc.key_block
+    others = [(b"bob", EB), (b"carol", EC), (b"dave", ED)]
+
+    # ---------------- Part A
+    def text_of(entries):
+        return b"\n".join(blk(n, p) for n, p in entries)
+
+    def lookup_oracle(entries, q):
+        hit = [n for n, p in entries if p == q]
+
+        def f(r_):
+            if hit:
+                if r_["code"] != 0 or r_["out"] != hit[0]:
+                    return ("the key %s is reported under the name of the entry holding exactly that key: %r" % (q.decode(), hit[0]),
+                            r_["raw"][:300])
+            elif r_["code"] != 5:
+                return ("no entry holds the key %s (others coincide with it only in part): it is an unknown key, no name is "
+                        "reported" % q.decode(), r_["raw"][:300])
+            return None
+        return f
+    kcases = []
+    for label, L in looks:
+        al = (b"alice", L)
+        rings = [[al] + others,                                   # look-alike first, real sender absent
+                 [others[0], al, others[1]],                      # look-alike in the middle, real sender absent
+                 [al, others[0], (b"mallory", EM)],               # look-alike BEFORE the exact entry
+                 [(b"mallory", EM), others[1], al]]               # exact entry first
+        for ri, ring in enumerate(rings if (full or label.startswith("same-checksum") or label == "checksum-twin-valid") else
+                                  [rings[0], rings[2]]):
+            t = text_of(ring)
+            kcases.append(pc.KCase("kr_name_from_key", text=t, pk=EM, oracle=lookup_oracle(ring, EM), tags=["c05-lookalike", "-".join(label.split("-")[:2])]))
+            if ri % 2 == 0:
+                kcases.append(pc.KCase("kr_name_from_key", text=t, pk=L, oracle=lookup_oracle(ring, L), tags=["c05-lookalike-query"]))
+    # several look-alikes at once
+    for _ in range(6 if not full else 40):
+        pick = rng.sample(looks, min(len(looks), rng.randrange(2, 6)))
+        ring = [(("la%d" % i).encode(), L) for i, (_, L) in enumerate(pick)] + others[:rng.randrange(0, 3)]
+        rng.shuffle(ring)
+        if rng.random() < 0.5:
+            ring.insert(rng.randrange(1, len(ring) + 1), (b"mallory", EM))
+        kcases.append(pc.KCase("kr_name_from_key", text=text_of(ring), pk=EM, oracle=lookup_oracle(ring, EM), tags=["c05-lookalike", "several"]))
+    pc.k_run_cases(ctx, kcases, model=True, tag="C05k")
+
+    # ---------------- Part B
+    pw = rng.choice([b"pw-bob", "b\u00f6b \u2713".encode("utf-8"), b"x"])
+    locked_b, locked_m = pc.lock_keys([(b, pw, ctx.rbytes(32)), (m, pw, ctx.rbytes(32))])
+    P = ctx.rbytes(rng.randrange(1, 200))
+    ek = ctx.rbytes(32)
+    epk = vlib.unhex(pc.lib_ops(ctx.bin, ["xpub " + vlib.hexs(ek)])[0]["out"])
+    enc = Case("key_enc", s=m, spk=M, r=B, e=ek, epk=epk, pk=ctx.rbytes(32), data=P)
+    vlib.run_impl(ctx.bin, [enc])
+    w = pc.World(prefix="kv_c05_")
+    try:
+        if enc.result["code"] != 0:
+            ctx.violations.append({"input": enc.full(), "expected": "honest key encryption succeeds", "observed": enc.result["outcome"], "finding_key": None})
+            return
+        w.write("ct_lib", enc.result["out"])
+        # the same sender through the command line itself (mallory's own keyring: her key pair and bob's public key)
+        w.write("pt", P)
+        w.write("kr_mallory", blk(b"mallory", EM, locked_m) + b"\n" + blk(b"bob", EB))
+        r0 = w.run(["encrypt", "pt", "-t", "bob", "-f", "mallory", "-o", "ct_cli", "-k", "kr_mallory", "--env-pass"], env=pc.env_pw(pw))
+        cts = ["ct_lib"] + (["ct_cli"] if r0.rc == 0 else [])
+        if r0.rc != 0:
+            self_viol = {"input": {"kind": "proc", "scenario": "c05 setup: mallory encrypts to bob", "commands": [r0.describe()]},
+                         "expected": "exit 0", "observed": "exit %d" % r0.rc, "finding_key": None}
+            ctx.violations.append(self_viol)
+        bobblk = blk(b"bob", EB, locked_b)
+        sel = looks if full else ([x for x in looks if x[0].startswith(("same-checksum", "checksum-twin"))]
+                                  + rng.sample([x for x in looks if not x[0].startswith(("same-checksum", "checksum-twin"))], 5))
+        jobs = []
+        for i, (label, L) in enumerate(sel):
+            al = blk(b"alice", L)
+            rings = {"absent": al + b"\n" + bobblk + b"\n" + blk(b"carol", EC),
+                     "after": blk(b"carol", EC) + b"\n" + al + b"\n" + bobblk + b"\n" + blk(b"mallory", EM)}
+            for pos, txt in rings.items():
+                name = "kr_%d_%s" % (i, pos)
+                w.write(name, txt)
+                jobs.append((label, pos, name, cts[(i + (pos == "after")) % len(cts)], L))
+        # control: no look-alike at all, sender listed last / not listed
+        w.write("kr_plain_known", blk(b"carol", EC) + b"\n" + bobblk + b"\n" + blk(b"dave", ED) + b"\n" + blk(b"mallory", EM))
+        w.write("kr_plain_unknown", blk(b"carol", EC) + b"\n" + bobblk + b"\n" + blk(b"dave", ED))
+        jobs.append(("no-lookalike", "after", "kr_plain_known", cts[-1], None))
+        jobs.append(("no-lookalike", "absent", "kr_plain_unknown", cts[0], None))
+
+        def one(job):
+            label, pos, kr, ct, L = job
+            out = "out_" + kr
+            return w.run(["decrypt", ct, "-t", "bob", "-o", out, "-k", kr, "--env-pass"], env=pc.env_pw(pw)), w.read(out)
+        from concurrent.futures import ThreadPoolExecutor
+        with ThreadPoolExecutor(max_workers=vlib.NPROC) as ex:
+            res = list(ex.map(one, jobs))
+        for (label, pos, kr, ct, L), (run, got) in zip(jobs, res):
+            ctx.evaluations += 1
+            ctx.distinct_nontrivial += 1
+            ctx.oracle_checks += 1
+            ctx.distribution["c05cli:decrypt-" + pos] = ctx.distribution.get("c05cli:decrypt-" + pos, 0) + 1
+            lines = [l for l in run.errtext().splitlines() if l.startswith(("Success.", "Caution.", "Unknown key:"))]
+            scen = ("file made with mallory's key pair %s for bob (%s); bob's keyring %s lists 'alice' = %s [%s]%s"
+                    % (EM.decode(), ct, kr, L.decode() if L else "-", label,
+                       ", and 'mallory' = her exact key after it" if pos == "after" else "; mallory's key is not in it"))
+            want = (["Success. File from: mallory"] if pos == "after" else
+                    ["Caution. File is from an unknown key.", "Unknown key: " + EM.decode()])
+            bad = None
+            if run.rc != 0 or got != P:
+                bad = ("decryption by the addressed key succeeds with the plaintext (exit 0)", "exit %d, output %s" % (run.rc, "differs/absent" if got != P else "ok"))
+            elif lines != want:
+                bad = ("the sender reported is the key whose private key took part in creating the file: " + " / ".join(want),
+                       " / ".join(lines) if lines else run.errtext()[-300:])
+            if bad:
+                ctx.violations.append({"input": {"kind": "proc", "scenario": scen, "commands": [run.describe()],
+                                                 "keyring": (w.read(kr) or b"").decode("utf-8", "replace")},
+                                       "expected": bad[0], "observed": bad[1], "finding_key": None})
+            elif len(ctx.samples) < 8:
+                ctx.samples.append({"scenario": scen, "stderr": " / ".join(lines)})
+    finally:
+        w.close()
 
 
 REGISTRY["C05"] = C05()
